@@ -16,6 +16,8 @@ TEXT = {
          "same as C01; R/R grammars excluded (README: undefined)", "rapidcheck PBT, differential vs reference resolution", "5/C05"),
  "C06": ("exploration", "Coverage-guided fuzzing of whole parsers and of the regex matcher on arbitrary bytes through four buffer kinds with sanitizers, a bounds monitor inside the library's fixed vectors and a checked user iterator; the differential across buffer kinds and a linear-progress bound are checked inside the target.",
          "libFuzzer mutations reach the interesting inputs; termination only as absence of reproducible time-outs", "libFuzzer (coverage-guided) + ASan/UBSan + checked-iterator buffer + differential across buffer kinds", "5/C06"),
+ "C07": ("exploration", "Generated programs (public DSL only) compiled with both available compilers; per input a SFINAE probe observes whether the compile-time parse is a constant expression and its value, and six run-time parses (3 buffer kinds x parser built at compile time / at run time) must agree with it and with the reference. Sample sizes are bounded by compile time.",
+         "generators and reference of C01/C05/C08; g++ 12.2 and clang++ 14.0.6 only", "generated-program differential (constexpr vs run time x buffers x compilers) against the reference model", "5/C07"),
  "C08": ("exploration", "Generated grammars with error rules and inputs with injected errors; outcome, kept values and error messages must equal the README recovery algorithm run on the reference table.",
          "same as C01; recovery model written from README's five bullets", "rapidcheck PBT, reference recovery model", "5/C08"),
  "C09": ("exploration", "Generated conflict-free grammars and inputs (also lexically wrong); exactly one message of the right kind, position and term/byte, nothing on success, failure iff not in the language.",
@@ -28,7 +30,7 @@ TEXT = {
          "reference regex semantics; real pattern parser/builder driven at run time through public API", "rapidcheck PBT, automata equivalence vs reference DFA + derivative matcher, three-way bug-model scope", "5/C03"),
  "C12": ("exploration", "Four sub-checks with the cvector bounds monitor on: (a) predicted regex automaton size vs states used, (l) lexer automaton vs sum of term budgets, (b) custom table limits around the real state/situation counts (too small => loud rejection, sufficient => same behaviour), (c) fixed stacks of cstring_buffer<N> for N <= 20 vs the string_buffer run.",
          "builder capacity 1024 in the harness; bounds monitor hook", "rapidcheck PBT, invariant (used <= predicted) + bounds monitor", "5/C12"),
- "C17": ("exploration", "Sub-check (a): category-mutated malformed patterns must be refused by both construction paths; scanning any string stays inside its NUL-terminated block (ASan). (Undeclared grammar symbols need compiled programs and are added by the compiled tier.)",
+ "C17": ("exploration", "(a) category-mutated malformed patterns must be refused by both construction paths; scanning any string stays inside its NUL-terminated block (ASan). (b) generated programs whose grammar references an undeclared symbol: run-time construction must throw and the constexpr probe must report a non-constant expression, with g++ and clang++.",
          "reference classification VALID/MALFORMED/UNSPECIFIED", "rapidcheck PBT, mutation-based negative testing + ASan", "5/C17"),
  "C18": ("exploration", "Generated grammars over custom terms driven by a scripted custom lexer with generated (index, length) behaviour; the lexer's call log, the functor log and the outcome are compared with a reference tokeniser + LR run.",
          "same as C01; scripted lexer table is generated per case", "rapidcheck PBT, scripted-lexer call-log invariant + reference LR over delivered terms", "5/C18"),
@@ -66,7 +68,7 @@ def main():
         if pid in props.PROPS and pid in TEXT:
             cat, text, note, tech, ref = TEXT[pid]
             spec = props.PROPS[pid]
-            eng = spec["jobs"][0]["engine"] if "jobs" in spec else spec.get("module")
+            eng = spec["jobs"][0]["engine"] if spec.get("jobs") else "compiled tier (vlib/compiled.py)"
             for j in spec.get("jobs", []):
                 engines.setdefault(j["engine"], []).append(pid)
             m["checks"].append({
